@@ -42,8 +42,8 @@ func ConcRun(ng, nops int, seed uint64) (clients, counts string) {
 	capN := int64(server.VerifTSSCap)
 	step := int64(2000)
 	t0 := baseSec*1e9 + 9e8
-	now := t0 + capN*step + 20e9
-	clk.now = tm(now) // frozen for the whole run: later than every receive time below
+	now := t0 + capN*step + int64(ng+10)*1e9 // later than every receive time used below (each goroutine stays within its own second)
+	clk.now = tm(now)                        // frozen for the whole run: later than every receive time below
 	call := func(cid int64, org, rx, tx uint64, rxt int64) handleResult {
 		var req ntp.Packet
 		req.SetVersion(ntp.VersionMax)
